@@ -45,7 +45,7 @@ class HDF5OutputGroup(OutputGroup):
     @only_master_rank
     def write_string_array(self, string_name, string_array, metadata=None):
 
-        asciiList = [n.encode("ascii", "ignore") for n in string_array]
+        asciiList = [n.encode("utf-8") for n in string_array]
         ds = self._entry.create_dataset(
             str(string_name), (len(asciiList), 1), 'S64', asciiList)
 
